@@ -776,7 +776,9 @@ func TestCheck(t *testing.T) {
 			"(plain or impersonate) fails with a retriable API error (500 InternalError or 429 with Retry-After, what webhook.DefaultShouldRetry retries); the reactor signals the harness before it returns the error, " +
 			"the harness moves the alias to another live cluster, then lets the error return, so the retry (after the production 500 ms back-off) happens after the move. Cache TTL pairs from " +
 			"{0, 50ms, 10s, 1h} incl. asymmetric ones. Oracle: provenance monitor (see package comment) + every review caused by a request is received by the cluster owning the host. " +
-			"thorough tier adds the production wiring (real Manager/controller/handler chain, HTTP stub upstreams serving TokenReview/SAR) and concurrency. " +
+			"Production wiring (8 worlds in quick, 60 in thorough): real controller = Manager = ClientProvider, authenticator/authorizer from the production config constructors, real handler chain, HTTP stub upstreams serving " +
+			"TokenReview/SAR and recording the impersonated identity of forwarded requests; sequential and 4-client concurrent phases, alias moves, requests whose TLS connection state carries a server name " +
+			"different from the Host header (another cluster's name / alias, unknown, empty), and after every alias move an outage of the new owner (its endpoint fails the health probes) with fresh credentials, then recovery. " +
 			"Non-trivial = the scenario contains at least two hosts of different clusters asked with the same credentials; distinct = hash of the operation list.")
 		r.Assume("a cached answer that the host's own cluster gave earlier may be applied while that cluster has no ready endpoint (the statement only forbids deciding from another cluster's answer)")
 		r.Assume("Hostname in ExtraRequestInfo is lower-case without port, as the production ExtraRequestInfoFactory produces it")
@@ -804,9 +806,7 @@ func TestCheck(t *testing.T) {
 			}
 		})
 		r.Set("scenarios_by_feature", feat)
-		if !r.Quick() {
-			wired(r)
-		}
+		wired(r)
 		r.Require(r.Counter("authn_requests") > int64(ns*10) && r.Counter("authz_requests") > int64(ns*10), "too few requests")
 		r.Require(r.Counter("authn_served_from_cache") > int64(ns) && r.Counter("authz_served_from_cache") > int64(ns), "caches were hardly ever hit")
 		r.Require(r.Counter("alias_moves") > int64(ns), "too few alias moves")
